@@ -2,13 +2,13 @@
 package c02
 
 import (
-	"time"
-	"os"
 	"encoding/json"
 	"fmt"
+	"os"
 	"runtime"
 	"strings"
 	"sync"
+	"time"
 
 	"github.com/tigerwill90/fox"
 
